@@ -356,6 +356,8 @@ bloom_filter_alloc<A> bloom_filter_alloc<A>::internal_deserialize_or_wrap(void* 
   const bool is_empty = (flags & EMPTY_FLAG_MASK) != 0;
 
   ensure_minimum_memory(length_bytes, prelongs * sizeof(uint64_t));
+  // the fields read below depend on the empty flag, whatever the declared preamble size is
+  ensure_minimum_memory(length_bytes, (is_empty ? PREAMBLE_LONGS_EMPTY : PREAMBLE_LONGS_STANDARD) * sizeof(uint64_t));
 
   uint16_t num_hashes;
   ptr += copy_from_mem(ptr, num_hashes);
